@@ -11,7 +11,7 @@
   theorems are for every such field.  The bridge is one rewrite (`Ls.rowSum_real`, `Lemmas/Ls/RowSumEntry.lean`).
 
     C01_pe_matrix_entry         `(toProblem np).A i j = Lin.rowSum (np.rows[i]) (j+1)` for the output of `project_equations()`
-                                (`RowsOK` ← `NoAlias`, `C01_pe_rowsOK`)
+                                (`RowsOK`: `C01_pe_rowsOK`, no `NoAlias` since round 12)
     C01_pe_matrix_is_jacobian   the entry of `(toProblem np).A` in the row of a regular observation and the column
                                 `index_*()` of an adjusted unknown is ∂(observation function)/∂(unknown); every other
                                 entry of the row is 0
@@ -34,11 +34,10 @@ attribute [local instance 2000] scalarOfField
     `project_equations()` over ℝ (the carrier of C05's theorems) hands to the solver -/
 theorem C01_pe_matrix_entry (net : PE.Net ℝ) (np : NetProblem ℝ) (u : Unknowns ℝ)
     (h : @projectEquations ℝ instTrigScalarReal net = .ok (np, u))
-    (hna : ∀ ob ∈ revisedObs u.net, NoAlias ob)
     (i : Fin (toProblem np).m) (j : Fin (toProblem np).n) :
     (toProblem np).A i j = @Lin.rowSum ℝ instScalarReal (np.rows.getD i.val #[]).toList (j.val + 1) := by
   have h' : @projectEquations ℝ (trigOfField realTrig) net = .ok (np, u) := by rw [trig_eq]; exact h
-  have hrows := @C01_pe_rowsOK ℝ (trigOfField realTrig) net np u h' hna
+  have hrows := @C01_pe_rowsOK ℝ (trigOfField realTrig) net np u h'
   rw [rowSum_real]
   exact A_entry_rowSum (toProblem np) hrows i j
 
@@ -47,7 +46,6 @@ theorem C01_pe_matrix_entry (net : PE.Net ℝ) (np : NetProblem ℝ) (u : Unknow
     approximate coordinates; a column that is the index of no adjusted unknown named by a role of the row holds 0 -/
 theorem C01_pe_matrix_is_jacobian (net : PE.Net ℝ) (np : NetProblem ℝ) (u : Unknowns ℝ)
     (h : @projectEquations ℝ instTrigScalarReal net = .ok (np, u))
-    (hna : ∀ ob ∈ revisedObs u.net, NoAlias ob)
     (i : Fin (toProblem np).m) (ob : NObs ℝ) (hr : (revisedObs u.net)[i.val]? = some ob)
     (hreg : Regular ob.kind ((sigmaOf u.net).view ob)) (j : Fin (toProblem np).n) :
     (∀ unk, (sigmaOf u.net).isFree unk = true → u.net.idx.get unk = j.val + 1 →
@@ -56,7 +54,7 @@ theorem C01_pe_matrix_is_jacobian (net : PE.Net ℝ) (np : NetProblem ℝ) (u : 
         u.net.idx.get (ob.name rc.1 rc.2) ≠ j.val + 1) → (toProblem np).A i j = 0) := by
   obtain ⟨-, hJ, hZ, -⟩ :=
     Gama.Props.C05ProjectEquations.C05_pe_design_matrix_is_jacobian net np u h i.val ob hr hreg
-  rw [C01_pe_matrix_entry net np u h hna i j]
+  rw [C01_pe_matrix_entry net np u h i j]
   refine ⟨fun unk hf hidx => ?_, fun hno => hZ (j.val + 1) hno⟩
   rw [← hidx]
   exact hJ unk hf
@@ -79,7 +77,7 @@ example : ∃ u, @projectEquations ℚ (trigOfField tQ) netW = .ok (npW, u) ∧ 
       (toProblem npW).A i j = Lin.rowSum (npW.rows.getD i.val #[]).toList (j.val + 1)) ∧
     Lin.rowSum (npW.rows.getD 1 #[]).toList 1 = (-1 : ℚ) ∧ Lin.rowSum (npW.rows.getD 1 #[]).toList 2 = (1 : ℚ) := by
   obtain ⟨u, hu, hna⟩ := netW_pe
-  exact ⟨u, hu, hna, A_entry_rowSum (toProblem npW) (@C01_pe_rowsOK ℚ (trigOfField tQ) netW npW u hu hna),
+  exact ⟨u, hu, hna, A_entry_rowSum (toProblem npW) (@C01_pe_rowsOK ℚ (trigOfField tQ) netW npW u hu),
     by decide +kernel, by decide +kernel⟩
 
 end examples
